@@ -124,4 +124,72 @@ example : ¬ ((Appr.run { tallyReset := false, ignoreStop := !false } 1
     [.arrive 1, .lookup 10 1, .timeoutTake 1, .timeoutSend 1, .commit 10 true]).outcomes.filter (·.1 = 1)).length ≤ 1 := by
   decide
 
+/-! ### the arrival event, regenerated (round 5 follow-up)
+
+`Spine.Appr`'s event `arrive w` registers the write (pending entry, timer armed) AND presents it to every callback in
+one step. A callback may answer at once - from inside the callback, while the stack is still inside `HandleMessage`
+for the write -, and a verdict whose lookup finds no pending entry is dropped without a trace. One atomic event is a
+faithful model of the two effects exactly when the source registers before it presents: then every lookup a callback
+can make comes after the registration. The order is read off the source on every run (generator `approval`: from the
+exported `HandleMessage`, helpers inlined, the callbacks field found by its type, `go cb(msg)` / a call of an element
+of that field - directly, over a local copy of the slice, or inside a wrapping closure). -/
+
+/-- the two effects of an arrival, separately -/
+def registerOnly (s : Appr.St) (w : Nat) : Appr.St :=
+  { s with seen := w :: s.seen, pending := w :: s.pending, armed := w :: s.armed }
+def presentOnly (s : Appr.St) (w : Nat) : Appr.St :=
+  { s with presented := s.presented ++ (List.range s.nCb).map (fun i => (w, i)) }
+
+/-- the source registers the pending entry and arms the timer of a write BEFORE it presents the write to any
+    approval callback (every path from HandleMessage) -/
+theorem c12_arrival_order_matches_source :
+    Generated.Approval.registeredBeforePresented = true ∧ Generated.Approval.armedBeforePresented = true := by decide
+
+/-- the model's arrival event IS register-then-present (every member, every state, a write not seen before) -/
+theorem c12_arrive_is_register_then_present (c : Appr.Cfg) (s : Appr.St) (w : Nat) (h : s.seen.contains w = false) :
+    Appr.step c s (.arrive w) = presentOnly (registerOnly s w) w := by
+  simp only [Appr.step, h, Bool.false_eq_true, if_false, presentOnly, registerOnly]
+
+/-- in that order no verdict can be lost: once the write has been presented - after `arrive`, at the earliest - a
+    lookup for it finds it pending (every member, every state): the verdict is taken up -/
+theorem c12_verdict_right_after_presentation_is_taken_up (c : Appr.Cfg) (s : Appr.St) (w op : Nat)
+    (h : s.seen.contains w = false) :
+    (op, w) ∈ (Appr.step c (Appr.step c s (.arrive w)) (.lookup op w)).lookups ∧
+    w ∈ (Appr.step c s (.arrive w)).armed := by
+  rw [c12_arrive_is_register_then_present c s w h]
+  have hp : (presentOnly (registerOnly s w) w).pending.contains w = true := by simp [presentOnly, registerOnly]
+  refine ⟨?_, by simp [presentOnly, registerOnly]⟩
+  simp only [Appr.step, hp, if_true]
+  exact List.mem_cons_self
+
+/-- … and in every reachable state of every member a write that has been presented to a callback has been registered -/
+theorem c12_presented_write_is_registered (c : Appr.Cfg) (n : Nat) (evs : List Appr.Ev) (w i : Nat)
+    (h : (w, i) ∈ (Appr.run c n evs).presented) : w ∈ (Appr.run c n evs).seen := by
+  have hc := Appr.presInv_run c n evs w i
+  by_cases hs : w ∈ (Appr.run c n evs).seen
+  · exact hs
+  · have h0 : (Appr.run c n evs).presented.count (w, i) = 0 := by rw [hc]; simp [hs]
+    exact absurd h (List.count_eq_zero.mp h0)
+
+/-- the OTHER order refuted (why the fact is needed): presented first, the sole callback approves at once - its lookup
+    finds nothing pending -, registered afterwards: the write approved by every callback times out (repaired member) -/
+theorem c12_present_before_register_refuted :
+    let s₁ := presentOnly { nCb := 1 } 1
+    let s₂ := Appr.step Appr.Cfg.clean (Appr.step Appr.Cfg.clean s₁ (.lookup 10 1)) (.commit 10 true)
+    let s₃ := registerOnly s₂ 1
+    ([Appr.Ev.timeoutTake 1, .timeoutSend 1].foldl (Appr.step Appr.Cfg.clean) s₃).outcomes = [(1, .error)] := by decide
+
+/-- non-vacuity: the same verdict in the source's order applies the write -/
+example :
+    let s₁ := presentOnly (registerOnly { nCb := 1 } 1) 1
+    let s₂ := Appr.step Appr.Cfg.clean (Appr.step Appr.Cfg.clean s₁ (.lookup 10 1)) (.commit 10 true)
+    ([Appr.Ev.timeoutTake 1, .timeoutSend 1].foldl (Appr.step Appr.Cfg.clean) s₂).outcomes = [(1, .applied)] := by decide
+
+example : (Appr.run {} 2 [.arrive 4]).presented = [(4, 0), (4, 1)] ∧ 4 ∈ (Appr.run {} 2 [.arrive 4]).seen := by decide
+
+example : (Appr.step {} { nCb := 2 } (.arrive 3)).presented = (presentOnly (registerOnly { nCb := 2 } 3) 3).presented ∧
+    (Appr.step {} { nCb := 2 } (.arrive 3)).pending = [3] := by decide
+
+example : (7, 3) ∈ (Appr.step {} (Appr.step {} { nCb := 1 } (.arrive 3)) (.lookup 7 3)).lookups := by decide
+
 end Spine.Props.C12Gen
